@@ -11,10 +11,12 @@ import util
 from framework import pmap
 
 ID = 'C01'
-LEAN_MODULES = ['Pfst.Props.C01']
-LEAN_DEPS = ['Pfst.Edit', 'Pfst.EditLemmas']
+LEAN_MODULES = ['Pfst.Props.C01', 'Pfst.Props.C01b']
+LEAN_DEPS = ['Pfst.Edit', 'Pfst.EditLemmas', 'Pfst.Sep', 'Pfst.SepLemmas', 'Pfst.Drv.C01b']
 THEOREMS = ['Pfst.C01.text_before', 'Pfst.C01.text_after', 'Pfst.C01.text_new', 'Pfst.C01.replace_wf', 'Pfst.C01.steps_wf',
             'Pfst.C01.refused_identity']
+THEOREMS_C01B = []      # separator / delimiter primitives (Props/C01b.lean), filled below
+THEOREMS += THEOREMS_C01B
 RULE = ('a FIXED corpus of programs (hand-written snippets covering every node type + generated programs + layout mutators; '
         'independent of VERIF_SEED so that the unchanged tree is triaged once) is edited by seed-determined histories of '
         'structured edits: replace / attribute assignment / remove / cut / del item / insert / append / put_slice / view slice '
@@ -243,6 +245,12 @@ def _model_case(before_lines, before_ast_tree, tpath, after_lines, after_ast, af
 
     flat(post_tree, False)
     return case, exp
+
+
+def correspondence(ctx):
+    """separator / delimiter primitives (`_trail_sep`, `_maybe_ins_sep`, `_fix_Tuple`, ...): Lean models vs the real functions"""
+    import c01b
+    c01b.correspondence_c01b(ctx)
 
 
 def sweep(ctx):
